@@ -64,6 +64,12 @@ type world struct {
 	ref []*referral
 	// winFrom is the packet-log position of the last quiescent point.
 	winFrom int
+	// glueless is the victim's NS host the parent publishes no glue for;
+	// midFlight (set by the runner) is called by the victim's servers while
+	// they hold a query for that host's address, i.e. while the resolution
+	// tree that looks the host up is waiting.
+	glueless  string
+	midFlight func()
 
 	apex    []string   // apex[0] = ".", apex[j] = level j
 	zones   []*zm.Zone // original zones, zones[0] = root
@@ -102,7 +108,7 @@ func buildWorld(sc *Scenario) *world {
 		freshNext: map[int]int{}, onlyNext: map[int]int{}}
 	u := w.u
 	rootSrv := u.AddServer("root")
-	root := u.AddZone(zm.Spec{Apex: ".", Signed: true}, rootSrv)
+	root := u.AddZone(zm.Spec{Apex: ".", Signed: true, DefaultTTL: sc.RootTTL}, rootSrv)
 	w.apex = []string{"."}
 	w.zones = []*zm.Zone{root}
 	srv := [][]*authsim.Server{{rootSrv}}
@@ -143,7 +149,16 @@ func buildWorld(sc *Scenario) *world {
 		if l.Secure {
 			mode = authsim.DSAuto
 		}
-		u.Delegate(w.zones[j-1], w.zones[j], authsim.DelegOpts{DS: mode, NSTTL: l.NSTTL, DSTTL: l.DSTTL, GlueTTL: l.NSTTL})
+		opts := authsim.DelegOpts{DS: mode, NSTTL: l.NSTTL, DSTTL: l.DSTTL, GlueTTL: l.NSTTL}
+		if sc.Glueless && j == sc.Victim {
+			hosts := u.NSHosts(w.apex[j])
+			if len(hosts) > 1 {
+				hosts[1].Addrs = nil
+				w.glueless = hosts[1].Name
+				opts.NS = hosts
+			}
+		}
+		u.Delegate(w.zones[j-1], w.zones[j], opts)
 	}
 	// old child behaviours
 	v := w.zones[sc.Victim]
@@ -328,6 +343,10 @@ func (w *world) levelOf(apex string) int {
 // exactly as they leave the server.
 func (w *world) recorder(server string) func(q, honest *dns.Msg) *dns.Msg {
 	return func(q, honest *dns.Msg) *dns.Msg {
+		if w.glueless != "" && w.midFlight != nil && len(q.Question) == 1 && q.Question[0].Qtype == dns.TypeA &&
+			strings.EqualFold(q.Question[0].Name, w.glueless) {
+			w.midFlight()
+		}
 		if honest == nil || honest.Rcode != dns.RcodeSuccess {
 			return honest
 		}
